@@ -676,7 +676,7 @@ pub fn check_api(c: &CaseA, cx: &mut Cx) -> Res {
             vassert_eq!(cx, (r.cur_trace, r.cur_span), (t, s), "ids-missing-at-completion", "ids in the ambient context at completion vs ids the span was created with");
         }
         if seen.is_some() {
-            if kind != K_CUSTOM && r.cur_trace.is_some() {
+            if kind != K_CUSTOM && r.cur_trace.is_some() && r.cur_span.is_some() {
                 // carried: some trace_id / span_id entry of the event is the id of the frame
                 let has = |key: &str, want: &Option<String>| r.props.iter().any(|(k, v)| k == key && Some(v) == want.as_ref());
                 vassert!(
